@@ -304,6 +304,8 @@ class Contract:
             prove_clause(I, "%s::call[%s]::requires::" % (caller, self.qual), cl, kind="callsite")
         c.old = I.snapshot()
         I.trace.append(("call", self.qual))
+        if getattr(self, "assumed", False):
+            I.log.append("assumed %s" % self.qual)
         I.in_callsite = getattr(I, "in_callsite", 0) + 1
         I._pending_exists = []
         try:
@@ -433,6 +435,8 @@ class Result:
         self.wall = 0.0
         self.covers = []
         self.inlined = set()
+        self.assumed = set()
+        self.notes = set()
 
 
 def verify(con, registry, opts=None, initial=None):
@@ -541,6 +545,10 @@ def verify(con, registry, opts=None, initial=None):
         for l in I.log:
             if l.startswith("inlined "):
                 res.inlined.add(l[8:])
+            elif l.startswith("assumed "):
+                res.assumed.add(l[8:])
+            elif l.startswith("unmodelled attribute"):
+                res.notes.add(l)
     res.wall = time.time() - t0
     return res
 
